@@ -1,6 +1,7 @@
 SPECIFICATION Spec
 CONSTANTS
   Rich = FALSE
+  LengthFastPath = FALSE
   StrictIdText = TRUE
-INVARIANTS RoundTripLaw EqualIffEncodingEqualLaw NonCanonicalLaw IdRoundTripLaw OrderPreservingLaw RejectInvalidLaw Dump
+INVARIANTS RoundTripLaw CanonicalDERLaw EqualIffEncodingEqualLaw NonCanonicalLaw IdRoundTripLaw OrderPreservingLaw RejectInvalidLaw Dump
 CHECK_DEADLOCK FALSE
